@@ -203,6 +203,7 @@ structure Driven where
   blocks : List CB.EBlock
   events : List Ev
   ending : End
+  openSet : List Nat := []       -- blk files whose reader is still open when the loop stops
 
 def blockHash (b : RBlock) : Bytes := A.sha256d b.header.toBytes
 def txids (b : RBlock) : List Bytes := b.txs.map CB.txid
@@ -237,27 +238,27 @@ def readAt (coin : Coin) (key : Option Bytes) (f : BlkFile) (off : Nat) : Res (N
 /-- the `for height in cur..=max_height` loop; `n` = heights left -/
 def driveLoop (coin : Coin) (o : Opts) (key : Option Bytes) (files : List (Nat × BlkFile))
     (full trimmed : List (Nat × Wk.Rec)) : Nat → Nat → List Nat → List CB.EBlock → List Ev → Driven
-  | _, 0, _, acc, evs => ⟨acc.reverse, evs.reverse, .complete⟩
+  | _, 0, opened, acc, evs => ⟨acc.reverse, evs.reverse, .complete, opened⟩
   | h, n+1, opened, acc, evs =>
     match lookup trimmed h with
-    | none => ⟨acc.reverse, evs.reverse, .complete⟩
+    | none => ⟨acc.reverse, evs.reverse, .complete, opened⟩
     | some r =>
       match (files.find? (·.1 == r.file)).map (·.2) with
-      | none => ⟨acc.reverse, evs.reverse, .errorAt h "Block file for block not found"⟩
+      | none => ⟨acc.reverse, evs.reverse, .errorAt h "Block file for block not found", opened⟩
       | some f =>
         let evs := if opened.contains r.file then evs else Ev.opening r.file :: evs
         let opened := if opened.contains r.file then opened else r.file :: opened
         match readAt coin key f r.off with
-        | .err m => ⟨acc.reverse, evs.reverse, .errorAt h m⟩
-        | .panic m => ⟨acc.reverse, evs.reverse, .panicAt h m⟩
+        | .err m => ⟨acc.reverse, evs.reverse, .errorAt h m, opened⟩
+        | .panic m => ⟨acc.reverse, evs.reverse, .panicAt h m, opened⟩
         | .ok (size, b) =>
           let close : Bool := match maxHeightByBlk full r.file with | some m => decide (h ≥ m) | none => false
           let evs := if close then Ev.closing r.file :: evs else evs
           let opened := if close then opened.filter (· ≠ r.file) else opened
           let v : Res Unit := if o.verify then verifyBlock coin trimmed b h else .ok ()
           match v with
-          | .err m => ⟨acc.reverse, evs.reverse, .errorAt h m⟩
-          | .panic m => ⟨acc.reverse, evs.reverse, .panicAt h m⟩
+          | .err m => ⟨acc.reverse, evs.reverse, .errorAt h m, opened⟩
+          | .panic m => ⟨acc.reverse, evs.reverse, .panicAt h m, opened⟩
           | .ok () => driveLoop coin o key files full trimmed (h + 1) n opened (⟨h, size, b⟩ :: acc) evs
 
 structure Loaded where
